@@ -607,6 +607,24 @@ func (e *Engine) rowLiterals(v ssa.Value, depth int, seen map[ssa.Value]bool) []
 			}
 		}
 	case *ssa.Parameter:
+		// the element variable of a range-over-func loop (`for batch := range slices.Chunk(rows, n)`): the body is a
+		// synthesized closure and the variable its parameter; continue at the collection the iterator was built from
+		if mc := e.parent[x.Parent()]; mc != nil && mc.Referrers() != nil {
+			for _, ref := range *mc.Referrers() {
+				call, ok := ref.(*ssa.Call)
+				if !ok || len(call.Call.Args) == 0 || call.Call.Args[0] != ssa.Value(mc) {
+					continue
+				}
+				if seq, ok := unwrap(call.Call.Value).(*ssa.Call); ok {
+					if g := seq.Call.StaticCallee(); g != nil && canon(g).Pkg != nil && len(seq.Call.Args) > 0 {
+						switch canon(g).Pkg.Pkg.Path() {
+						case "slices", "maps", "iter":
+							out = append(out, e.rowLiterals(seq.Call.Args[0], depth+1, seen)...)
+						}
+					}
+				}
+			}
+		}
 		fn := x.Parent()
 		idx := -1
 		for i, p := range fn.Params {
